@@ -27,6 +27,7 @@ func init() {
 }
 
 func runC40(c *core.Ctx) {
+	checkProposersAlwaysInstalled(c, "C40.proposers-installed")
 	checkRoleWindowPredicate(c)
 	bp := c.Fn(pkVbft, "Server.buildParticipantConfig")
 	cpp := c.Fn(pkVbft, "calcParticipantPeers")
@@ -154,7 +155,14 @@ func runC40(c *core.Ctx) {
 		check("ChainConfig", -1, isChain, "chainCfg")
 		check("Vrf", -1, func(v ssa.Value) bool {
 			cl, _ := ir.CallOf(v)
-			return cl != nil && cl.Common().StaticCallee() == seed
+			if cl != nil && cl.Common().StaticCallee() == seed {
+				return true
+			}
+			// … or what a same-package helper answers, itself the seed of the block it was handed
+			via, release := valueVia(v)
+			defer release()
+			vc, _ := ir.CallOf(ir.Strip(via))
+			return via != v && vc != nil && vc.Common().StaticCallee() == seed
 		}, "getParticipantSelectionSeed(block)")
 	}
 	eng.Dominates(c, "C40.build", bp, eng.NamedGuard{Name: "seed.IsNil() == false", G: ir.BoolIs(func(cl *ssa.Call) bool {
@@ -309,10 +317,48 @@ func runC40(c *core.Ctx) {
 		}
 		checkLeadingProposerCount(c, leadHost, leadMap, chP)
 		opt := &eng.Opt{Start: draw}
+		// the set asked may be m itself, or the merge of m with a set created empty and never filled in fn
+		// (the window that excludes nobody gets an empty set): absent from m's merge ⇐ absent from m
+		neverFilled := func(v ssa.Value) bool {
+			mk, isMk := v.(*ssa.MakeMap)
+			if !isMk {
+				return false
+			}
+			if refs := mk.Referrers(); refs != nil {
+				for _, r := range *refs {
+					switch r.(type) {
+					case *ssa.Lookup, *ssa.Phi, *ssa.DebugRef:
+					default:
+						return false
+					}
+				}
+			}
+			return true
+		}
+		isSet := func(x, m ssa.Value) bool {
+			if x == m {
+				return true
+			}
+			ph, isPhi := x.(*ssa.Phi)
+			if !isPhi {
+				return false
+			}
+			hasM := false
+			for _, e := range ph.Edges {
+				switch {
+				case e == m:
+					hasM = true
+				case neverFilled(e):
+				default:
+					return false
+				}
+			}
+			return hasM
+		}
 		miss := func(m ssa.Value, name string) eng.NamedGuard {
 			return eng.NamedGuard{Name: name, G: func(cd ir.Cond) (bool, bool) {
 				// plain lookup `set[id]` of a set that only ever stores true: true means present
-				if lk, isLk := cd.V.(*ssa.Lookup); isLk && !lk.CommaOk && lk.X == m && ir.Strip(lk.Index) == ssa.Value(draw) && c40OnlyTrueStored(fn, m) {
+				if lk, isLk := cd.V.(*ssa.Lookup); isLk && !lk.CommaOk && isSet(lk.X, m) && ir.Strip(lk.Index) == ssa.Value(draw) && c40OnlyTrueStored(fn, m) {
 					return true, false
 				}
 				ex, ok := cd.V.(*ssa.Extract)
@@ -320,7 +366,7 @@ func runC40(c *core.Ctx) {
 					return false, false
 				}
 				lk, ok := ex.Tuple.(*ssa.Lookup)
-				if !ok || lk.X != m || ir.Strip(lk.Index) != ssa.Value(draw) {
+				if !ok || !isSet(lk.X, m) || ir.Strip(lk.Index) != ssa.Value(draw) {
 					return false, false
 				}
 				return true, false
